@@ -5,8 +5,9 @@ import JaqalModel.Model.GateDef
 `expand_subcircuits` (`/repo/src/jaqalpaq/core/algorithm/expand_subcircuits.py`), by value on the shared IR.
 
 * `_choose_bounding_gate`: a definition object supplied by the caller is used as it is; a name supplied
-  by the caller, or else the default name, is looked up in the circuit's native gates; when the lookup
-  fails a fresh `GateDefinition(name)` without parameters is made.
+  by the caller, or else the default name, must not be the name of a macro of the circuit (`JaqalError`, raised
+  before anything else: first for prepare, then for measure); it is looked up in the circuit's native gates; when
+  the lookup fails a fresh `GateDefinition(name)` without parameters is made.
 * `SubcircuitExpander`: macros are rebuilt first (in order), then the body.  A subcircuit block becomes
   `BlockStatement(parallel=block.parallel, statements=[prepare_def(), *visited, measure_def()])`
   — the subcircuit flag and the iteration count are NOT passed on (defaults `False`, `1`); any other
@@ -31,12 +32,31 @@ def freshDef (name : String) : GateDef := { name := name, tag := .native, params
 /-- `circuit.native_gates[name]` -/
 def findNative (c : Circuit) (name : String) : Option GateDef := c.natives.find? (·.name == name)
 
-/-- `_choose_bounding_gate(user_def, default_name, circuit)` -/
+/-- the definition `_choose_bounding_gate(user_def, default_name, circuit)` returns when it returns -/
 def chooseBounding (user : Option GateDefChoice) (dflt : String) (c : Circuit) : GateDef :=
   match user with
   | some (.defn g) => g
   | some (.name n) => (findNative c n).getD (freshDef n)
   | none => (findNative c dflt).getD (freshDef dflt)
+
+/-- the `name` `_choose_bounding_gate` looks up: the caller's string or the default; none when the caller supplied a
+definition object (returned at once) -/
+def boundingName (user : Option GateDefChoice) (dflt : String) : Option String :=
+  match user with
+  | some (.defn _) => none
+  | some (.name n) => some n
+  | none => some dflt
+
+/-- `name in circuit.macros` -/
+def boundingClash (user : Option GateDefChoice) (dflt : String) (c : Circuit) : Bool :=
+  match boundingName user dflt with
+  | some n => c.macros.any (·.name == n)
+  | none => false
+
+/-- `_choose_bounding_gate(user_def, default_name, circuit)`: `JaqalError` when the looked-up name is defined as a
+macro of the circuit (checked before the native-gates lookup, whether or not a subcircuit block occurs) -/
+def chooseBoundingM (user : Option GateDefChoice) (dflt : String) (c : Circuit) : M GateDef :=
+  if boundingClash user dflt c then .error (.jaqal "bounding-name-is-a-macro") else pure (chooseBounding user dflt c)
 
 /-- `_validate_count(count, …)` raises: the count is neither an `int` nor a constant / parameter of kind INT or
 NONE (a float, a FLOAT constant, a qubit or register parameter kind, a register, a qubit, `None` are all rejected) -/
@@ -95,8 +115,8 @@ def statementsOf : Stmt → M (List Stmt)
 
 /-- `expand_subcircuits(circuit, prepare_def, measure_def)` -/
 def expandSubcircuits (prep meas : Option GateDefChoice) (c : Circuit) : M Circuit := do
-  let p := chooseBounding prep "prepare_all" c
-  let m := chooseBounding meas "measure_all" c
+  let p ← chooseBoundingM prep "prepare_all" c
+  let m ← chooseBoundingM meas "measure_all" c
   let macros ← visitMacros p m c.macros
   let body ← visitStmt p m c.body
   let stmts ← statementsOf body
